@@ -120,7 +120,8 @@ def construct_scenario(rnd, mode):
     batch = rnd.choice([1, 1, 1, 2, 2, 3, 0])
     s = dict(mode=mode, fam=fam, dims=2, jobs=jobs, batch=batch, seed=rnd.randrange(1, 2 ** 31),
              lat=rnd.choice([0, 0, 1, 2, 2, 3, 4]), sched=rnd.choice([0, 1, 2, 2, 3, 3]),
-             guess=1 if rnd.random() < 0.2 else 0, preload=1 if rnd.random() < 0.3 else 0)
+             guess=1 if rnd.random() < 0.2 else 0, preload=1 if rnd.random() < 0.3 else 0,
+             eager=rnd.choice([1000, 1000, 1000, 0, 0, 1, 2, 3, 5]))      # below `eager` loaded points every completed sample is loaded at once; above: deferred (ratio rule)
     if local:
         s["order"] = rnd.choice([1, 1, 2]) if fam != "wavelet" else 1
         s["depth"] = rnd.choice([0, 1, 1, 2])
@@ -381,6 +382,13 @@ def real_runs(ctx, drv, wd, n_par, n_seq, n_ln, chunk, stats, rerun=True):
         cons.append("mode=par fam=%s dims=2 jobs=%d batch=%d seed=%d lat=%d sched=%d guess=0 preload=0 order=%d depth=1 limit=%d crit=4 out=-1 fmodel=0 tolexp=3 budget=%d"
                     % (fam, rnd.choice([6, 8]), rnd.choice([1, 2]), rnd.randrange(1, 2 ** 31), rnd.choice([0, 1, 2, 3, 4]), rnd.choice([0, 1, 2, 3]),
                        rnd.choice([1, 2]), lim, rnd.randrange(30, 60)))
+    # deferred loading: above the eager threshold (lowered through the guarded hook) finished samples wait in the side store until
+    # the ratio rule fires; with more workers than free candidates a returning worker finds nothing to do and the candidates are
+    # refreshed while finished samples are still unloaded
+    for k in range(max(16, n_par // 16) if n_par >= 60 else 6):
+        cons.append("mode=par fam=%s dims=2 jobs=%d batch=%d seed=%d lat=%d sched=%d guess=0 preload=1 eager=%d depth=%d order=1 limit=-1 ctype=%d crit=0 out=0 fmodel=1 tolexp=6 budget=%d"
+                    % (rnd.choice(["seq_leja", "seq_rleja", "global_leja", "global_cc", "seq_minlebesgue"]), rnd.choice([5, 6, 8]), rnd.choice([1, 1, 2]), rnd.randrange(1, 2 ** 31),
+                       rnd.choice([1, 2, 3]), rnd.choice([0, 1, 2]), rnd.choice([0, 0, 5]), rnd.choice([3, 4, 4]), rnd.choice([0, 1]), rnd.randrange(20, 45)))
     rnd.shuffle(cons)
     lns = [scen_line(ln_scenario(rnd)) for _ in range(n_ln)]
     jobs = []
